@@ -365,8 +365,94 @@ def check(run: Run) -> None:
                                 "wirings share one child graph and every sink inside it runs once instead of twice", loc=fa.loc(adds[0]))
         run.sites(n, 3, "owner wiring sites")
 
+    with run.obligation("C06.h", "K4+K7", "the definition identity under which an operator node is interned separates the runtime node kinds: every `*_node_tag` declared in "
+                        "the operator layer is the identity of exactly ONE wiring function and every declared tag is used - two wiring functions that build different "
+                        "runtime nodes from the same (schema, inputs, scalars) must not share a tag, or whichever is wired first serves both call sites"):
+        OPS = ("include/hgraph/lib/std/operators/impl/higher_order_impl.h", "include/hgraph/lib/std/operators/control.h")
+        declared: Dict[str, str] = {}
+        used: Dict[str, set] = {}
+        for rel in OPS:
+            fi_ = run.tree.file(rel)
+            for sd in fi_.structs:
+                if sd.name.endswith("_node_tag"):
+                    declared[sd.name] = rel
+            toks = fi_.toks
+            for fd_ in fi_.funcs:
+                if fd_.body is None:
+                    continue
+                a, b = fd_.body
+                for k in range(a, b):
+                    if toks[k].text == "typeid" and toks[k + 1].text == "(":
+                        j = fi_.match[k + 1] if hasattr(fi_, "match") else None
+                        name = None
+                        q = k + 2
+                        while q < b and toks[q].text != ")":
+                            if toks[q].kind == "id":
+                                name = toks[q].text
+                            q += 1
+                        if name and name.endswith("_node_tag"):
+                            used.setdefault(name, set()).add(fd_.qual)
+        run.count(len(declared), "C06.h")
+        if run._cur is not None:
+            run._cur["sites"] = len(declared)
+        if len(declared) < 14:
+            raise AnalysisError("anchor-vanished", f"C06.h: {len(declared)} node tags declared in the operator layer, expected at least 14")
+        for tag in sorted(declared):
+            fns = sorted(used.get(tag, ()))
+            if not fns:
+                run.finding("C06.h", f"{tag}:declared-but-unused", f"{tag} is declared as a node definition identity but no wiring function uses it: the node kind it was "
+                            "declared for is being interned under another kind's tag", loc=declared[tag])
+            elif len(fns) > 1:
+                run.finding("C06.h", f"{tag}:shared-by-{len(fns)}-wiring-functions", f"{tag} is the interning identity of {fns}: nodes of different runtime kinds built from "
+                            "the same schema, inputs and scalars are merged into one", loc=declared[tag])
+        for tag in sorted(set(used) - set(declared)):
+            raise AnalysisError("model-mismatch", f"C06.h: tag {tag} used but its declaration was not indexed")
+
+    with run.obligation("C06.i", "K11", "switch_ / dispatch_ bind keyword arguments to branch parameters BY NAME, so the keyword names are part of what the node does: they "
+                        "flow into the interning identity of the node (its input schema or its configuration value) - two calls that pass the same sources under "
+                        "different keywords must not be merged (found F-C06-3)"):
+        HOI = "include/hgraph/lib/std/operators/impl/higher_order_impl.h"
+        n_ok = 0
+        for wname in ("wire_switch", "wire_dispatch"):
+            fa = R.fn(run, HOI, wname)
+            run.count(1, "C06.i")
+            t_ = R.taint_closure(fa, ["kwargs"])
+            calls_ = R.calls(fa, "add_compiled_switch")
+            if len(calls_) != 1:
+                raise AnalysisError("anchor-vanished", f"C06.i: {wname} has {len(calls_)} add_compiled_switch calls")
+            call = calls_[0]
+            callee = R.fn(run, HOI, "add_compiled_switch")
+            params = [nm for ty, nm in callee.params]
+            # the locals that receive the NAMES (kwargs[i].first); `ts` only receives kwargs[i].second (the source)
+            name_seeds = set()
+            for n_ in fa.body.walk():
+                if isinstance(n_, C.Call) and isinstance(n_.fn, C.Member) and n_.fn.name in ("push_back", "emplace_back") and isinstance(n_.fn.obj, C.Id):
+                    if any("kwargs" in R.Canon()(a) and ".first" in R.Canon()(a) for a in n_.args):
+                        name_seeds.add(n_.fn.obj.name)
+            if not name_seeds:
+                raise AnalysisError("anchor-vanished", f"C06.i: no local of {wname} receives the keyword names")
+            name_vars = R.taint_closure(fa, name_seeds)
+            carrying = [params[i] for i, a in enumerate(call.args) if i < len(params) and any(isinstance(x, C.Id) and x.name in name_vars for x in a.walk())]
+            reaches = False
+            if carrying:
+                ct = R.taint_closure(callee, carrying)
+                for an in R.calls(callee, "add_node"):
+                    # identity arguments of Wiring::add_node: definition, schema, inputs, scalars (the builder lambda is not identity)
+                    ident_args = [a for a in an.args if not isinstance(a, C.Lambda)]
+                    if any(isinstance(x, C.Id) and x.name in ct for a in ident_args for x in a.walk()):
+                        reaches = True
+            if reaches:
+                n_ok += 1
+            else:
+                run.finding("C06.i", f"{wname}:keyword-names-not-in-identity", f"{wname}: the keyword names ({'passed as ' + ', '.join(carrying) if carrying else 'not passed at all'}) "
+                            "do not reach the interning identity of the switch node (definition tag, node schema, inputs, configuration): `f(k, cases, a=x, b=y)` and "
+                            "`f(k, cases, b=x, a=y)` intern to ONE node and the second call silently gets the first call's binding", loc=fa.loc(call))
+
 
 VARIANTS = [
+    {"id": "i-revert-fix-keyword-names-not-in-identity", "expect": "C06.i", "edits": [{"file": "include/hgraph/lib/std/operators/impl/higher_order_impl.h", "find": "                    if (slot == i) { field_name += \":\" + name; }", "replace": "                    static_cast<void>(name); static_cast<void>(slot);"}]},
+    {"id": "i-dispatch-drops-names", "expect": "C06.i", "edits": [{"file": "include/hgraph/lib/std/operators/impl/higher_order_impl.h", "find": "                Value{cases}, std::type_index(typeid(dispatch_switch_node_tag)), \"dispatch_\",\n                {named_slots.data(), named_slots.size()});", "replace": "                Value{cases}, std::type_index(typeid(dispatch_switch_node_tag)), \"dispatch_\");"}]},
+    {"id": "h-ordered-reduce-uses-associative-tag", "expect": "C06.h", "edits": [{"file": "include/hgraph/lib/std/operators/impl/higher_order_impl.h", "find": "                std::type_index(typeid(reduce_ordered_tsd_node_tag)),", "replace": "                std::type_index(typeid(reduce_tsd_node_tag)),"}]},
     {"id": "f-first-leaf-ordinal-wins", "expect": "C06.f", "edits": [{"file": WIRING, "find": "      const std::size_t part_ordinal = captures.boundary_ordinal(part);\n      if (ordinal.has_value() && *ordinal != part_ordinal) {\n        return false;\n      }\n      ordinal = part_ordinal;", "replace": "      if (!ordinal.has_value()) {\n        ordinal = captures.boundary_ordinal(part);\n      }"}]},
     {"id": "a2-active-inputs-compared-by-presence-only", "expect": "C06.a2", "edits": [{"file": NODE, "find": "                   lhs.active_inputs == rhs.active_inputs &&\n", "replace": "                   lhs.active_inputs.has_value() == rhs.active_inputs.has_value() &&\n"}]},
     {"id": "e-dedup-indegree-only", "expect": "C06.e", "edits": [{"file": WIRING, "find": "        ++indegree[instance];\n        consumers[producer].push_back(instance);\n      }\n    }\n    for (const WiringInstance *producer : instance->rank_dependencies) {", "replace": "        auto &dependants = consumers[producer];\n        if (dependants.empty() || dependants.back() != instance) {\n          ++indegree[instance];\n        }\n        dependants.push_back(instance);\n      }\n    }\n    for (const WiringInstance *producer : instance->rank_dependencies) {"}]},
